@@ -38,7 +38,9 @@ def tiling_model(ctx):
         for s_, e_ in ((0, 9), (2, 10), (0, 1)):
             for bs in (1, 2, 3, 5, 20):
                 for bl in bls:
-                    for F in (None, 1, 3):
+                    for F in (None, 0, 1, 3):
+                        if F == 0 and (bs in (2, 20) or len(bl) > 1):
+                            continue
                         n += 1
                         case = {'region': (s_, e_), 'bin size': bs, 'blacklist [start, end)': list(bl), 'fragment size': F}
                         try:
